@@ -462,3 +462,26 @@ impl Sched {
         (results, out)
     }
 }
+
+/// The numeric value of a fresh thread's `ThreadId` (std hands them out from a process-wide counter).
+/// A library under test may let thread ids decide something (a lock shard picked by hashing the id);
+/// the simulator makes that counter a recorded quantity: every case notes the id handed out just before
+/// its simulated threads are spawned, and a replay advances the counter to the same value first.
+pub fn thread_id_probe() -> u64 {
+    std::thread::spawn(|| {
+        let t = format!("{:?}", std::thread::current().id());
+        t.trim_start_matches("ThreadId(").trim_end_matches(')').parse::<u64>().unwrap_or(0)
+    })
+    .join()
+    .unwrap_or(0)
+}
+
+/// Advance the thread-id counter until a probe returns at least `target` (no-op if it is already past).
+pub fn advance_thread_ids_to(target: u64) -> u64 {
+    loop {
+        let id = thread_id_probe();
+        if id >= target || id == 0 {
+            return id;
+        }
+    }
+}
